@@ -44,7 +44,9 @@ func getSwapInSenderStates() States {
 			Action: &SendMessageAction{},
 			Events: Events{
 				Event_ActionSucceeded: State_SwapInSender_AwaitAgreement,
-				Event_ActionFailed:    State_SwapCanceled,
+				// The request may have reached the peer (also when this state is
+				// failed on recovery): tell it that the swap is off.
+				Event_ActionFailed: State_SendCancel,
 			},
 			FailOnrecover: true,
 		},
